@@ -132,6 +132,7 @@ func Run(ctx *core.Ctx) {
 	ctx.Extra["deviation_selftest"] = selftest
 
 	// M2: replay every exported history on the real code
+	t0 := time.Now()
 	total, nontrivial := 0, 0
 	for _, ex := range exports {
 		if ex == nil {
@@ -141,12 +142,15 @@ func Run(ctx *core.Ctx) {
 		total += n
 		nontrivial += nt
 	}
+	ctx.Extra["m2_replay_wall_s"] = time.Since(t0).Seconds()
 	ctx.Extra["m2_histories_replayed"] = total
 	ctx.Extra["m2_history_length"] = L
 	ctx.Exhaustive = true // every history of the stated family was replayed
 
 	// M3: random histories over generated bundles
+	t1 := time.Now()
 	RandomHistories(ctx, ctx.Pick(240, 2400))
+	ctx.Extra["m3_wall_s"] = time.Since(t1).Seconds()
 }
 
 // exploreHistories runs TLC on the reference model for one configuration and
@@ -326,12 +330,12 @@ func runHistory(family string, inst *Instance, ops []Op, exp []*Step, fresh map[
 			return &failure{i, core.Sig{Family: family, Feature: "shared-state-mutated:" + d.Own},
 				fmt.Sprintf("step %d (%s) changed shared state: %s: %s -> %s (%d digest lines differ)", i+1, o.Key(), d.Path, d.Before, d.After, d.Count), obs, fr, d}
 		}
+		callerDiff := FirstDiff(caller, DigestOf(inst.CallerRoots()...))
 		if w := inst.changed(cp); w != "" {
-			d := FirstDiff(caller, DigestOf(inst.CallerRoots()...))
 			return &failure{i, core.Sig{Family: family, Feature: "caller-value-mutated:" + w},
-				fmt.Sprintf("step %d (%s) changed the caller's %s", i+1, o.Key(), w), obs, fr, d}
+				fmt.Sprintf("step %d (%s) changed the caller's %s", i+1, o.Key(), w), obs, fr, callerDiff}
 		}
-		if d := FirstDiff(caller, DigestOf(inst.CallerRoots()...)); d != nil {
+		if d := callerDiff; d != nil {
 			return &failure{i, core.Sig{Family: family, Feature: "caller-value-mutated:" + d.Own},
 				fmt.Sprintf("step %d (%s) changed a caller value: %s: %s -> %s", i+1, o.Key(), d.Path, d.Before, d.After), obs, fr, d}
 		}
